@@ -39,7 +39,7 @@ def run(ctx):
                        "gfortran 12; F_CFI as implemented by gfortran 12",
                        "upstream FRUIT programs are an additional fixed replay tier, not generated input"]
     configs = [None, {"F_CFI": True}, {"debug": True}] if quick else [None, {"F_CFI": True}, {"debug": True}, {"F_CFI": True, "debug": True}]
-    callcheck.run_engine(ctx, "fortran", configs, 10 if quick else 120, ["c++", "c"])
+    callcheck.run_engine(ctx, "fortran", configs, 16 if quick else 400, ["c++", "c"])
     names = upstream.target_lists()["fortran"]
     jobs = [(n, None) for n in names]
     if not quick:
